@@ -187,6 +187,7 @@ type Ret struct {
 type Behaviour struct {
 	Steps []*Step
 	Phys  []*Phys // physical expectations parallel to Steps (IavlStore.tla), or nil
+	V2    []*V2St // v2 persistence expectations parallel to Steps (IavlV2.tla), or nil
 	Raw   string  // the JSON text, for replay files
 }
 
@@ -216,6 +217,14 @@ type FastEntry struct {
 	Ver int64 `json:"ver"`
 }
 
+// V2St is the v2 persistence state after a step.
+type V2St struct {
+	Ckpts    []int64 `json:"ckpts"`
+	Pruned   int64   `json:"pruned"`
+	Loadable []int64 `json:"loadable"`
+	CI       int64   `json:"ci"`
+}
+
 // Phys is the expected physical state after a step.
 type Phys struct {
 	Label int64       `json:"label"`
@@ -229,16 +238,19 @@ type Phys struct {
 func ParseBehaviour(js string) (*Behaviour, error) {
 	var steps []*Step
 	var phys []*Phys
+	var v2 []*V2St
 	if len(js) > 0 && js[0] == '{' {
 		var both struct {
-			H []*Step `json:"h"`
-			P []*Phys `json:"p"`
+			H  []*Step `json:"h"`
+			P  []*Phys `json:"p"`
+			V2 []*V2St `json:"v2"`
 		}
 		if err := json.Unmarshal([]byte(js), &both); err != nil {
 			return nil, err
 		}
 		steps, phys = both.H, both.P
-		if len(phys) != len(steps) {
+		v2 = both.V2
+		if phys != nil && len(phys) != len(steps) {
 			return nil, fmt.Errorf("physical history has %d records for %d steps", len(phys), len(steps))
 		}
 	} else if err := json.Unmarshal([]byte(js), &steps); err != nil {
@@ -266,7 +278,7 @@ func ParseBehaviour(js string) (*Behaviour, error) {
 		}
 		s.Work = w
 	}
-	return &Behaviour{Steps: steps, Phys: phys, Raw: js}, nil
+	return &Behaviour{Steps: steps, Phys: phys, V2: v2, Raw: js}, nil
 }
 
 // ExtractJSON takes a TLC output line of the form <<"TAG", "....">> and returns the
@@ -329,6 +341,8 @@ func (b *Behaviour) Summary() string {
 			fmt.Fprintf(&sb, "reopenat %d(fast=%v)", s.Args.T, s.Args.Fast)
 		case "expopen", "expclose":
 			fmt.Fprintf(&sb, "%s %d", s.Op, s.Args.T)
+		case "v2delto":
+			fmt.Fprintf(&sb, "v2delto %d", s.Args.N)
 		case "reopen":
 			fmt.Fprintf(&sb, "reopen(fast=%v)", s.Args.Fast)
 		case "load":
